@@ -1270,6 +1270,142 @@ example : (scanSubsetsRun 0 (globalScore (fun (r : Nat) p => (r : Int) * 10 - (p
     = (scanSubsetsRun 0 (globalScore (fun (r : Nat) p => (r : Int) * 10 - (p.headD 0 : Int)) (fun r => r))
       (enumJobs [5] [2] [3] [0] 1 2 [2, 1] true)).map (fun M => (List.range 5).map (fun x => M.valOr 0 [x])) := by decide
 
+/-! ## rotation chunking and max-aggregation: further facts (deepen7) -/
+
+/-- every rotation is handed to some chunk and chunks hold only listed rotations (`_split_rotations_on_jobs`) -/
+theorem splitRotations_mem_iff {α} (rots : List α) (n : Nat) (hn : 1 ≤ n) (r : α) :
+    r ∈ rots ↔ ∃ c ∈ splitRotations rots n, r ∈ c := by
+  rw [← List.mem_flatten, splitRotations_concat rots n hn]
+
+/-- every rotation is in exactly as many chunks (with multiplicity) as it is listed: nothing is evaluated twice or dropped -/
+theorem splitRotations_count {α} [DecidableEq α] (rots : List α) (n : Nat) (hn : 1 ≤ n) (r : α) :
+    ((splitRotations rots n).map (List.count r)).sum = rots.count r := by
+  rw [← List.count_flatten, splitRotations_concat rots n hn]
+
+/-- the chunk sizes add up to the number of rotations -/
+theorem splitRotations_total_length {α} (rots : List α) (n : Nat) (hn : 1 ≤ n) :
+    ((splitRotations rots n).map List.length).sum = rots.length := by
+  rw [← List.length_flatten, splitRotations_concat rots n hn]
+
+/-- `n_jobs = 1`: one chunk holding the whole rotation list -/
+theorem splitRotations_one {α} (rots : List α) : splitRotations rots 1 = [rots] := by
+  simp [splitRotations]
+
+/-- the chunking for any two job counts (in particular `n_jobs > n_rotations` against `n_jobs = n_rotations`) evaluates
+the same rotations in the same overall order -/
+theorem splitRotations_flatten_jobs_free {α} (rots : List α) (n m : Nat) (hn : 1 ≤ n) (hm : 1 ≤ m) :
+    (splitRotations rots n).flatten = (splitRotations rots m).flatten := by
+  rw [splitRotations_concat rots n hn, splitRotations_concat rots m hm]
+
+theorem foldl_max_init (l : List Int) : ∀ (a b : Int), l.foldl max (max b a) = max b (l.foldl max a) := by
+  induction l with
+  | nil => intro a b; rfl
+  | cons x l ih => intro a b; simp only [List.foldl_cons]; rw [max_assoc]; exact ih _ _
+
+/-- **regrouping**: the running maximum over a concatenation is the maximum of the running maxima of the parts -/
+theorem foldl_max_append (a : Int) (l₁ l₂ : List Int) :
+    (l₁ ++ l₂).foldl max a = max (l₁.foldl max a) (l₂.foldl max a) := by
+  rw [List.foldl_append, ← foldl_max_init]
+  congr 1
+  have : ∀ (l : List Int) (a : Int), a ≤ l.foldl max a := by
+    intro l; induction l with
+    | nil => intro a; exact Int.le_refl _
+    | cons x l ih => intro a; simp only [List.foldl_cons]; exact Int.le_trans (by omega) (ih _)
+  have := this l₁ a
+  omega
+
+/-- the running maximum dominates the start value and every score seen -/
+theorem foldl_max_ge (l : List Int) : ∀ a : Int, a ≤ l.foldl max a ∧ ∀ x ∈ l, x ≤ l.foldl max a := by
+  induction l with
+  | nil => intro a; simp
+  | cons x l ih =>
+    intro a
+    simp only [List.foldl_cons, List.mem_cons]
+    obtain ⟨h1, h2⟩ := ih (max a x)
+    refine ⟨by omega, ?_⟩
+    rintro y (rfl | hy)
+    · omega
+    · exact h2 y hy
+
+/-- **the maximum is attained**: the aggregated score is the start value (threshold) or the score of a listed rotation -/
+theorem foldl_max_attained (l : List Int) : ∀ a : Int, l.foldl max a = a ∨ l.foldl max a ∈ l := by
+  induction l with
+  | nil => intro a; simp
+  | cons x l ih =>
+    intro a
+    simp only [List.foldl_cons, List.mem_cons]
+    rcases ih (max a x) with h | h
+    · rw [h]; rcases Int.le_total a x with hx | hx
+      · right; left; omega
+      · left; omega
+    · right; right; exact h
+
+/-- **rotation order**: the aggregated maximum is invariant under any permutation of the rotation list -/
+theorem foldl_max_perm {l₁ l₂ : List Int} (h : l₁.Perm l₂) : ∀ a : Int, l₁.foldl max a = l₂.foldl max a := by
+  induction h with
+  | nil => intro a; rfl
+  | cons x _ ih => intro a; simp only [List.foldl_cons]; exact ih _
+  | swap x y l => intro a; simp only [List.foldl_cons]; congr 1; omega
+  | trans _ _ ih₁ ih₂ => intro a; rw [ih₁, ih₂]
+
+/-- **max over chunks = max over the list**: reducing each chunk from the threshold `a` and then the chunk results gives
+the running maximum of the concatenated list -/
+theorem foldl_max_chunks (a : Int) (L : List (List Int)) : ∀ b : Int, a ≤ b →
+    (L.map (fun c => c.foldl max a)).foldl max b = L.flatten.foldl max b := by
+  induction L with
+  | nil => intro b _; rfl
+  | cons c L ih =>
+    intro b hb
+    simp only [List.map_cons, List.foldl_cons, List.flatten_cons, List.foldl_append]
+    have e : max b (c.foldl max a) = c.foldl max b := by
+      rw [← foldl_max_init]; congr 1; omega
+    rw [e]
+    exact ih _ (Int.le_trans hb (foldl_max_ge c b).1)
+
+/-- **job count**: per-voxel max over the chunks of `_split_rotations_on_jobs(n_jobs)` equals the max over the whole
+rotation list, for every `n_jobs ≥ 1` — so `n_jobs > n_rotations` gives the same value as `n_jobs = n_rotations` -/
+theorem chunked_max_eq_whole (a : Int) (scores : List Int) (n : Nat) (hn : 1 ≤ n) :
+    ((splitRotations scores n).map (fun c => c.foldl max a)).foldl max a = scores.foldl max a := by
+  rw [foldl_max_chunks a _ a (Int.le_refl _), splitRotations_concat scores n hn]
+
+example : ((splitRotations [3, -1, 7, 2] 6).map (fun c => c.foldl max (0 : Int))).foldl max 0 = 7 ∧
+    ((splitRotations [3, -1, 7, 2] 4).map (fun c => c.foldl max (0 : Int))).foldl max 0 = 7 := by decide
+example : ([3, -1, 7] : List Int).Perm [7, 3, -1] := by decide
+
+
+/-- **more jobs than rotations**: all chunks but the last are empty and the last worker evaluates the whole list -/
+theorem splitRotations_more_jobs {α} (rots : List α) (n : Nat) (h : rots.length < n) :
+    splitRotations rots n = List.replicate (n - 1) [] ++ [rots] := by
+  obtain ⟨J, rfl⟩ : ∃ J, n = J + 1 := ⟨n - 1, by omega⟩
+  unfold splitRotations
+  simp only [Nat.add_sub_cancel, Nat.div_eq_of_lt h, Nat.mul_zero, List.drop_zero, List.take_zero]
+  rw [List.range_succ, List.map_append]
+  congr 1
+  · rw [List.eq_replicate_iff]
+    refine ⟨by simp, ?_⟩
+    intro x hx
+    simp only [List.mem_map, List.mem_range] at hx
+    obtain ⟨k, hk, rfl⟩ := hx
+    have : k ≠ J := by omega
+    simp [this]
+  · simp
+
+/-- **schedule and order together**: chunking a permuted rotation list on another number of jobs gives the same per-voxel maximum -/
+theorem chunked_max_perm_jobs_free (a : Int) {s₁ s₂ : List Int} (h : s₁.Perm s₂) (n m : Nat) (hn : 1 ≤ n) (hm : 1 ≤ m) :
+    ((splitRotations s₁ n).map (fun c => c.foldl max a)).foldl max a
+      = ((splitRotations s₂ m).map (fun c => c.foldl max a)).foldl max a := by
+  rw [chunked_max_eq_whole a s₁ n hn, chunked_max_eq_whole a s₂ m hm]
+  exact foldl_max_perm h a
+
+/-- the chunked per-voxel maximum is the threshold or the score of a listed rotation, and dominates every listed score -/
+theorem chunked_max_attained (a : Int) (scores : List Int) (n : Nat) (hn : 1 ≤ n) :
+    let M := ((splitRotations scores n).map (fun c => c.foldl max a)).foldl max a
+    (M = a ∨ M ∈ scores) ∧ a ≤ M ∧ ∀ x ∈ scores, x ≤ M := by
+  simp only [chunked_max_eq_whole a scores n hn]
+  exact ⟨foldl_max_attained scores a, foldl_max_ge scores a⟩
+
+example : splitRotations [10, 11] 4 = [[], [], [], [10, 11]] := by decide
+
 /-- the merge calls: one `scan` result per job for the outer `merge`, `inner` analyzers per job for the inner one -/
 theorem mergePlan_lengths {R : Type} (tgt tmpl tS mS : List Nat) (o i : Nat) (rots : List R) (pe : Bool) :
     (mergePlan (enumJobs tgt tmpl tS mS o i rots pe)).map List.length
